@@ -70,6 +70,18 @@ L1(P) == \A i \in 1..Len(P.flows) : Running(P.flows[i]) => Kept(P, P.flows[i])
 (* the instances violating L1 (for the report) *)
 Orphans(P) == {P.flows[i].name : i \in {j \in 1..Len(P.flows) : Running(P.flows[j]) /\ ~Kept(P, P.flows[j])}}
 
+(* L3: an activated flow is started again whenever its instance ends, for as long as a flow that activated it is
+   running: if before a macro step a listening activated instance f hangs under a running activator p (the first
+   ancestor with a different flow id) and p is still running after the step, then a listening activated instance of
+   the same flow exists after the step.  (Programs that deactivate flows themselves are outside this clause.) *)
+L3(Pprev, Pnext) ==
+  \A i \in 1..Len(Pprev.flows) :
+    LET f == Pprev.flows[i]  ep == EffParent(Pprev, f, 50) IN
+    (/\ f.activated > 0 /\ Listening(f) /\ ep # "" /\ Running(Flow(Pprev, ep))
+     /\ ep \in FlowUids(Pnext) /\ Running(Flow(Pnext, ep)))
+      => \E j \in 1..Len(Pnext.flows) : /\ Pnext.flows[j].fid = f.fid /\ Pnext.flows[j].activated > 0
+                                        /\ Listening(Pnext.flows[j])
+
 (* L2: action life cycle over a whole trace.  T is the sequence of macro steps; each step has
    `in_act` (<<event kind, action uid>> of the incoming event; kind "" if not an action event) and
    `out_acts` (seq of <<"Start" | "Stop", action uid>> among the outgoing events, in order).       *)
